@@ -12,7 +12,7 @@ Import ListNotations.
   Fopp := Ropp; Fdiv := Rdiv; Finv := Rinv }.
 Definition Rleb (x y : R) : bool := if Rle_dec x y then true else false.
 
-Ltac runf := cbv [F0 F1 Fadd Fmul Fsub Fopp Fdiv Finv ROpsS two Flit FofZ Fpos] in *.
+Ltac runf := unfold two, Flit, FofZ, Fpos in *; cbn [F0 F1 Fadd Fmul Fsub Fopp Fdiv Finv ROpsS] in *.
 
 Local Open Scope R_scope.
 
@@ -46,7 +46,8 @@ Qed.
 Ltac rmm := unfold Rmax, Rmin in *; repeat destruct (Rle_dec _ _); try lra.
 
 (* ------------------------------------------------------------ list sums *)
-Definition lsum {A} (f : A -> R) (l : list A) : R := fold_right (fun x acc => f x + acc) 0 l.
+Fixpoint lsum {A} (f : A -> R) (l : list A) : R :=
+  match l with [] => 0 | x :: t => f x + lsum f t end.
 
 Lemma lsum_app {A} (f : A -> R) l1 l2 : lsum f (l1 ++ l2) = lsum f l1 + lsum f l2.
 Proof. induction l1 as [|x l IH]; cbn; [lra | rewrite IH; lra]. Qed.
@@ -137,4 +138,659 @@ Proof.
       * intros n Hn IH Hm. apply Rle_trans with (t n).
         -- apply Hm; lia.
         -- apply IH. intros; apply Hm; lia.
+Qed.
+
+(* ------------------------------------------------ clipping, three directions *)
+Definition clip1 (nz : bool) (lo hi : R) (J : R * R) : R * R :=
+  if nz then (Rmax (fst J) lo, Rmin (snd J) hi) else J.
+Definition jlen (J : R * R) : R := ilen (fst J) (snd J).
+(* clip by cell i of a direction with parameter values t *)
+Definition clipc (nz : bool) (t : Z -> R) (i : Z) (J : R * R) : R * R :=
+  clip1 nz (Rmin (t i) (t (i + 1)%Z)) (Rmax (t i) (t (i + 1)%Z)) J.
+
+(* the visited index range [m, n) of a direction covers the parameter
+   interval [0,1]: monotone chain of cell intervals (either orientation), or,
+   for a direction without extent, exactly one cell *)
+Definition covers (nz : bool) (t : Z -> R) (m n : Z) : Prop :=
+  if nz then
+    (m <= n)%Z /\
+    (((forall i, (m <= i < n)%Z -> t i <= t (i + 1)%Z) /\ t m <= 0 /\ 1 <= t n) \/
+     ((forall i, (m <= i < n)%Z -> t (i + 1)%Z <= t i) /\ 1 <= t m /\ t n <= 0))
+  else n = (m + 1)%Z.
+
+Lemma clip1_comm n1 l1 h1 n2 l2 h2 J :
+  clip1 n1 l1 h1 (clip1 n2 l2 h2 J) = clip1 n2 l2 h2 (clip1 n1 l1 h1 J).
+Proof. destruct J as [a b], n1, n2; cbn; try reflexivity. f_equal; rmm. Qed.
+Lemma clipc_comm n1 t1 i1 n2 t2 i2 J :
+  clipc n1 t1 i1 (clipc n2 t2 i2 J) = clipc n2 t2 i2 (clipc n1 t1 i1 J).
+Proof. apply clip1_comm. Qed.
+Lemma clip1_bounds nz lo hi J : 0 <= fst J -> snd J <= 1 ->
+  0 <= fst (clip1 nz lo hi J) /\ snd (clip1 nz lo hi J) <= 1.
+Proof. destruct J as [a b], nz; cbn; intros; split; rmm. Qed.
+Lemma clipc_bounds nz t i J : 0 <= fst J -> snd J <= 1 ->
+  0 <= fst (clipc nz t i J) /\ snd (clipc nz t i J) <= 1.
+Proof. apply clip1_bounds. Qed.
+
+Lemma axis_partition nz t m n J : covers nz t m n -> 0 <= fst J -> snd J <= 1 ->
+  lsum (fun i => jlen (clipc nz t i J)) (zrange m n) = jlen J.
+Proof.
+  destruct J as [a b]. unfold covers, clipc, clip1, jlen. cbn [fst snd].
+  destruct nz; intros Hc Ha Hb.
+  - destruct Hc as [Hmn [[Hmono [H0 H1]] | [Hmono [H1 H0]]]].
+    + rewrite (lsum_ext _ (fun i => ilen (Rmax a (t i)) (Rmin b (t (i + 1)%Z)))).
+      * rewrite chain_inc by assumption. unfold ilen. rmm.
+      * intros i Hi. apply in_zrange in Hi. specialize (Hmono i Hi).
+        cbn [fst snd]. rewrite (Rmin_left (t i) (t (i + 1)%Z)), (Rmax_right (t i) (t (i + 1)%Z)) by lra. reflexivity.
+    + rewrite (lsum_ext _ (fun i => ilen (Rmax a (t (i + 1)%Z)) (Rmin b (t i)))).
+      * rewrite chain_dec by assumption. unfold ilen. rmm.
+      * intros i Hi. apply in_zrange in Hi. specialize (Hmono i Hi).
+        cbn [fst snd]. rewrite (Rmin_right (t i) (t (i + 1)%Z)), (Rmax_left (t i) (t (i + 1)%Z)) by lra. reflexivity.
+  - subst n. rewrite zrange_single. cbn. lra.
+Qed.
+
+(* the three nested loops (iz outermost, ix innermost) *)
+Definition cells3 (mx nx my ny mz nz : Z) : list (Z * Z * Z) :=
+  flat_map (fun iz : Z => flat_map (fun iy : Z => map (fun ix : Z => (ix, iy, iz)) (zrange mx nx))
+                                   (zrange my ny)) (zrange mz nz).
+
+Lemma lsum_cells3 (f : Z * Z * Z -> R) mx nx my ny mz nz :
+  lsum f (cells3 mx nx my ny mz nz)
+  = lsum (fun iz => lsum (fun iy => lsum (fun ix => f (ix, iy, iz)) (zrange mx nx))
+                         (zrange my ny)) (zrange mz nz).
+Proof.
+  unfold cells3. rewrite lsum_flat_map. apply lsum_ext. intros iz _.
+  rewrite lsum_flat_map. apply lsum_ext. intros iy _. now rewrite lsum_map.
+Qed.
+
+Lemma partition3 nzx tx mx nx nzy ty my ny nzz tz mz nz :
+  covers nzx tx mx nx -> covers nzy ty my ny -> covers nzz tz mz nz ->
+  lsum (fun c : Z * Z * Z =>
+          jlen (clipc nzz tz (snd c) (clipc nzy ty (snd (fst c)) (clipc nzx tx (fst (fst c)) (0, 1)))))
+       (cells3 mx nx my ny mz nz) = 1.
+Proof.
+  intros Hx Hy Hz. rewrite lsum_cells3. cbn [fst snd].
+  rewrite (lsum_ext _ (fun iz => jlen (clipc nzz tz iz (0, 1)))).
+  - rewrite (axis_partition nzz tz mz nz (0, 1) Hz); cbn; try lra. unfold jlen, ilen. cbn. rmm.
+  - intros iz _.
+    rewrite (lsum_ext _ (fun iy => jlen (clipc nzy ty iy (clipc nzz tz iz (0, 1))))).
+    + apply (axis_partition nzy ty my ny _ Hy); apply clipc_bounds; cbn; lra.
+    + intros iy _.
+      rewrite (lsum_ext _ (fun ix => jlen (clipc nzx tx ix (clipc nzy ty iy (clipc nzz tz iz (0, 1)))))).
+      * apply (axis_partition nzx tx mx nx _ Hx);
+          apply clipc_bounds; apply clipc_bounds; cbn; lra.
+      * intros ix _. f_equal.
+        rewrite (clipc_comm nzy ty iy nzx tx ix). rewrite (clipc_comm nzz tz iz nzx tx ix).
+        f_equal. apply clipc_comm.
+Qed.
+
+(* ----------------------------------------------------- one cell, abstractly *)
+(* facts about al = fst J, ar = snd J for J the (0,1) interval clipped by the
+   selected (non-zero) directions *)
+Lemma clip_facts nzx lox hix nzy loy hiy nzz loz hiz :
+  let J := clip1 nzz loz hiz (clip1 nzy loy hiy (clip1 nzx lox hix (0, 1))) in
+  (0 <= fst J /\ snd J <= 1) /\
+  (nzx = true -> lox <= fst J /\ snd J <= hix) /\
+  (nzy = true -> loy <= fst J /\ snd J <= hiy) /\
+  (nzz = true -> loz <= fst J /\ snd J <= hiz) /\
+  (fst J = 0 \/ (nzx = true /\ fst J = lox) \/ (nzy = true /\ fst J = loy)
+   \/ (nzz = true /\ fst J = loz)) /\
+  (snd J = 1 \/ (nzx = true /\ snd J = hix) \/ (nzy = true /\ snd J = hiy)
+   \/ (nzz = true /\ snd J = hiz)).
+Proof.
+  destruct nzx, nzy, nzz; cbn; unfold Rmax, Rmin; repeat destruct (Rle_dec _ _);
+    repeat split; intros; try discriminate; try lra; auto 10.
+Qed.
+
+Lemma guard_iff_pos (al ar : R) (nzx nzy nzz : bool) (lox hix loy hiy loz hiz : R)
+      (inx iny inz : Prop) :
+  (0 <= al /\ ar <= 1) ->
+  (nzx = true -> lox <= al /\ ar <= hix) ->
+  (nzy = true -> loy <= al /\ ar <= hiy) ->
+  (nzz = true -> loz <= al /\ ar <= hiz) ->
+  (al = 0 \/ (nzx = true /\ al = lox) \/ (nzy = true /\ al = loy) \/ (nzz = true /\ al = loz)) ->
+  (ar = 1 \/ (nzx = true /\ ar = hix) \/ (nzy = true /\ ar = hiy) \/ (nzz = true /\ ar = hiz)) ->
+  (if nzx then inx <-> lox <= (al + ar) / 2 <= hix else inx) ->
+  (if nzy then iny <-> loy <= (al + ar) / 2 <= hiy else iny) ->
+  (if nzz then inz <-> loz <= (al + ar) / 2 <= hiz else inz) ->
+  ((inx /\ iny /\ inz /\ 0 < Rabs (ar - al)) <-> al < ar).
+Proof.
+  intros H01 Hx Hy Hz Hal Har Ix Iy Iz. split.
+  - intros [Jx [Jy [Jz Hpos]]].
+    destruct (Rlt_dec al ar) as [|Hn]; [assumption|exfalso].
+    assert (Hlt : ar < al).
+    { destruct (Req_dec ar al) as [E|E]; [|lra].
+      rewrite E, Rminus_diag_eq, Rabs_R0 in Hpos by reflexivity. lra. }
+    destruct nzx, nzy, nzz; cbv iota in *;
+      repeat match goal with
+             | H : _ <-> _ |- _ => destruct H
+             | H : ?a = true -> _ |- _ => first [specialize (H eq_refl) | clear H]
+             end;
+      intuition (try discriminate; try lra).
+  - intros Hlt.
+    assert (Hpos : 0 < Rabs (ar - al)) by (rewrite Rabs_right; lra).
+    destruct nzx, nzy, nzz; cbv iota in *;
+      repeat match goal with
+             | H : _ <-> _ |- _ => destruct H
+             | H : ?a = true -> _ |- _ => first [specialize (H eq_refl) | clear H]
+             end;
+      intuition (try discriminate; try lra);
+      match goal with H : _ -> _ -> ?g |- ?g => apply H; lra end.
+Qed.
+
+(* parameter of a node: node = q0 + u d  ==>  being between two consecutive
+   nodes is the same as the parameter being between their parameters *)
+Lemma dir_D1 q0 d u u' t n n' : n = q0 + u * d -> n' = q0 + u' * d -> n < n' ->
+  Rmin u u' <= t <= Rmax u u' -> n <= q0 + t * d <= n'.
+Proof.
+  intros -> -> Hlt. unfold Rmin, Rmax. destruct (Rle_dec u u'); intros [H1 H2].
+  - assert (0 < d) by nra. split; nra.
+  - assert (d < 0) by nra. split; nra.
+Qed.
+Lemma dir_D2 q0 d u u' t n n' : n = q0 + u * d -> n' = q0 + u' * d -> n < n' ->
+  n <= q0 + t * d <= n' -> Rmin u u' <= t <= Rmax u u'.
+Proof.
+  intros -> -> Hlt [H1 H2]. unfold Rmin, Rmax. destruct (Rle_dec u u').
+  - assert (0 < d) by nra. split; nra.
+  - assert (d < 0) by nra. split; nra.
+Qed.
+
+Lemma r_bounds h x n : 0 < h -> (0 <= (x - n) / h /\ 0 <= 1 - (x - n) / h) <-> (n <= x <= n + h).
+Proof.
+  intros Hh. assert (E : x - n = (x - n) / h * h) by (field; lra).
+  set (r := (x - n) / h) in *. split; intros [H1 H2]; split; nra.
+Qed.
+
+(* ------------------------------------------------- connecting to the model *)
+Definition axis_ok (A : Axis R) : Prop :=
+  (0 < an A)%Z /\
+  forall i, (0 <= i < an A)%Z -> 0 < ah A i /\ anode A (i + 1)%Z = anode A i + ah A i.
+
+(* what the per-cell computation needs from a direction: positive width,
+   consistent nodes, and for a direction without extent: the cell contains
+   the coordinate *)
+Definition dir_ok (A : Axis R) (q0 q1 : R) (i : Z) : Prop :=
+  0 < ah A i /\ anode A (i + 1)%Z = anode A i + ah A i /\
+  (q1 - q0 = 0 -> anode A i <= q0 <= anode A (i + 1)%Z).
+
+Lemma nzd_true q0 q1 : nzd Rleb q0 q1 = true <-> q1 - q0 <> 0.
+Proof. unfold nzd. rewrite negb_true_iff. runf. apply feqb_false. Qed.
+Lemma nzd_false q0 q1 : nzd Rleb q0 q1 = false <-> q1 - q0 = 0.
+Proof. unfold nzd. rewrite negb_false_iff. runf. apply feqb_true. Qed.
+
+Definition inr (A : Axis R) (q0 q1 al ar : R) (i : Z) : Prop :=
+  0 <= rfrac A q0 q1 al ar i /\ 0 <= 1 - rfrac A q0 q1 al ar i.
+
+Lemma xc1_eq q0 q1 al ar : xc1 q0 q1 al ar = q0 + (al + ar) / 2 * (q1 - q0).
+Proof. unfold xc1. runf. field. Qed.
+
+Lemma dir_in_iff A q0 q1 al ar i : dir_ok A q0 q1 i -> nzd Rleb q0 q1 = true ->
+  (inr A q0 q1 al ar i <->
+   Rmin (afrac Rleb A q0 q1 i) (afrac Rleb A q0 q1 (i + 1)%Z) <= (al + ar) / 2
+   <= Rmax (afrac Rleb A q0 q1 i) (afrac Rleb A q0 q1 (i + 1)%Z)).
+Proof.
+  intros [Hh [Hn _]] Hnz. unfold inr, rfrac. runf. rewrite (r_bounds _ _ _ Hh), xc1_eq.
+  pose proof (proj1 (nzd_true _ _) Hnz) as Hd.
+  assert (E : forall j, anode A j = q0 + afrac Rleb A q0 q1 j * (q1 - q0)).
+  { intros j. unfold afrac, idd. rewrite Hnz. runf. field. exact Hd. }
+  rewrite <- Hn. split.
+  - apply (dir_D2 q0 (q1 - q0) _ _ _ _ _ (E i) (E (i + 1)%Z)). lra.
+  - apply (dir_D1 q0 (q1 - q0) _ _ _ _ _ (E i) (E (i + 1)%Z)). lra.
+Qed.
+
+Lemma dir_in_zero A q0 q1 al ar i : dir_ok A q0 q1 i -> nzd Rleb q0 q1 = false ->
+  inr A q0 q1 al ar i.
+Proof.
+  intros [Hh [Hn Hz]] Hnz. apply nzd_false in Hnz. specialize (Hz Hnz).
+  unfold inr, rfrac. runf. rewrite (r_bounds _ _ _ Hh), xc1_eq, Hnz. rewrite <- Hn. lra.
+Qed.
+
+Lemma Rleb_min0 a b : Rleb 0 (Rmin a b) = true <-> 0 <= a /\ 0 <= b.
+Proof. rewrite Rleb_true. unfold Rmin. destruct (Rle_dec a b); lra. Qed.
+
+Lemma Rmin0 a b : 0 <= Rmin a b <-> 0 <= a /\ 0 <= b.
+Proof. unfold Rmin. destruct (Rle_dec a b); lra. Qed.
+
+Lemma cell_guard_iff rx ry rz al ar :
+  cell_guard Rleb rx ry rz al ar = true <->
+  ((0 <= rx /\ 0 <= 1 - rx) /\ (0 <= ry /\ 0 <= 1 - ry) /\ (0 <= rz /\ 0 <= 1 - rz)
+   /\ 0 < Rabs (ar - al)).
+Proof.
+  unfold cell_guard. rewrite andb_true_iff, !fmin_R, fabs_R, fltb_true. runf.
+  rewrite Rleb_true, !Rmin0. tauto.
+Qed.
+
+Section Cell.
+  Variables (G : Grid R) (p0 p1 : P3 R).
+  Let nzX := nzd Rleb (px p0) (px p1).
+  Let nzY := nzd Rleb (py p0) (py p1).
+  Let nzZ := nzd Rleb (pz p0) (pz p1).
+  Let tX := afrac Rleb (gx G) (px p0) (px p1).
+  Let tY := afrac Rleb (gy G) (py p0) (py p1).
+  Let tZ := afrac Rleb (gz G) (pz p0) (pz p1).
+
+  Definition cellJ (c : Z * Z * Z) : R * R :=
+    clipc nzZ tZ (snd c) (clipc nzY tY (snd (fst c)) (clipc nzX tX (fst (fst c)) (0, 1))).
+
+  Lemma cell_al_eq ix iy iz : cell_al Rleb G p0 p1 ix iy iz = fst (cellJ (ix, iy, iz)).
+  Proof.
+    unfold cell_al, cellJ, clipc, clip1, sel_max, alo. cbn [fst snd].
+    fold nzX nzY nzZ tX tY tZ. rewrite !fmin_R.
+    destruct nzX, nzY, nzZ; cbn [fst snd]; rewrite ?fmax_R; runf; reflexivity.
+  Qed.
+  Lemma cell_ar_eq ix iy iz : cell_ar Rleb G p0 p1 ix iy iz = snd (cellJ (ix, iy, iz)).
+  Proof.
+    unfold cell_ar, cellJ, clipc, clip1, sel_min, ahi. cbn [fst snd].
+    fold nzX nzY nzZ tX tY tZ. rewrite !fmax_R.
+    destruct nzX, nzY, nzZ; cbn [fst snd]; rewrite ?fmin_R; runf; reflexivity.
+  Qed.
+
+  Definition cell_ok (c : Z * Z * Z) : Prop :=
+    dir_ok (gx G) (px p0) (px p1) (fst (fst c)) /\
+    dir_ok (gy G) (py p0) (py p1) (snd (fst c)) /\
+    dir_ok (gz G) (pz p0) (pz p1) (snd c).
+
+  (* the guard holds exactly when the cell meets the segment in positive length *)
+  Lemma cell_guard_pos ix iy iz : cell_ok (ix, iy, iz) ->
+    let al := cell_al Rleb G p0 p1 ix iy iz in
+    let ar := cell_ar Rleb G p0 p1 ix iy iz in
+    cell_guard Rleb (rfrac (gx G) (px p0) (px p1) al ar ix) (rfrac (gy G) (py p0) (py p1) al ar iy)
+               (rfrac (gz G) (pz p0) (pz p1) al ar iz) al ar = true <-> al < ar.
+  Proof.
+    intros [Hx [Hy Hz]] al ar. cbn [fst snd] in Hx, Hy, Hz.
+    rewrite cell_guard_iff.
+    pose proof (clip_facts nzX (Rmin (tX ix) (tX (ix + 1)%Z)) (Rmax (tX ix) (tX (ix + 1)%Z))
+                           nzY (Rmin (tY iy) (tY (iy + 1)%Z)) (Rmax (tY iy) (tY (iy + 1)%Z))
+                           nzZ (Rmin (tZ iz) (tZ (iz + 1)%Z)) (Rmax (tZ iz) (tZ (iz + 1)%Z))) as CF.
+    cbv zeta in CF.
+    assert (Eal : al = fst (cellJ (ix, iy, iz))) by apply cell_al_eq.
+    assert (Ear : ar = snd (cellJ (ix, iy, iz))) by apply cell_ar_eq.
+    unfold cellJ, clipc in Eal, Ear. cbn [fst snd] in Eal, Ear.
+    rewrite <- Eal, <- Ear in CF. destruct CF as [C1 [C2 [C3 [C4 [C5 C6]]]]].
+    apply (guard_iff_pos al ar nzX nzY nzZ _ _ _ _ _ _
+             (inr (gx G) (px p0) (px p1) al ar ix) (inr (gy G) (py p0) (py p1) al ar iy)
+             (inr (gz G) (pz p0) (pz p1) al ar iz) C1 C2 C3 C4 C5 C6).
+    - destruct nzX eqn:E; [apply (dir_in_iff _ _ _ _ _ _ Hx E) | apply (dir_in_zero _ _ _ _ _ _ Hx E)].
+    - destruct nzY eqn:E; [apply (dir_in_iff _ _ _ _ _ _ Hy E) | apply (dir_in_zero _ _ _ _ _ _ Hy E)].
+    - destruct nzZ eqn:E; [apply (dir_in_iff _ _ _ _ _ _ Hz E) | apply (dir_in_zero _ _ _ _ _ _ Hz E)].
+  Qed.
+
+  (* cell_spread_unity + guard: every component receives exactly the clipped
+     length fraction of the cell *)
+  Lemma cell_csum c cell : (c = 0 \/ c = 1 \/ c = 2)%Z -> cell_ok cell ->
+    csum c (cell_contribs Rleb G p0 p1 cell) = jlen (cellJ cell).
+  Proof.
+    intros Hc Hok. destruct cell as [[ix iy] iz].
+    pose proof (cell_guard_pos ix iy iz Hok) as HG. cbv zeta in HG.
+    unfold cell_contribs. cbn [fst snd].
+    set (al := cell_al Rleb G p0 p1 ix iy iz) in *.
+    set (ar := cell_ar Rleb G p0 p1 ix iy iz) in *.
+    unfold jlen. rewrite <- cell_al_eq, <- cell_ar_eq. fold al ar.
+    destruct (cell_guard Rleb _ _ _ al ar) eqn:EG.
+    - assert (Hlt : al < ar) by (apply HG; reflexivity).
+      unfold ilen. rewrite Rmax_right by lra.
+      destruct Hc as [-> | [-> | ->]]; cbn [csum fold_right cc cv Z.eqb Pos.eqb];
+        rewrite !fabs_R; runf; rewrite Rabs_right by lra; ring.
+    - assert (Hge : ~ al < ar) by (intros H; apply HG in H; congruence).
+      unfold ilen. rewrite Rmax_left by lra.
+      destruct Hc as [-> | [-> | ->]]; reflexivity.
+  Qed.
+End Cell.
+
+(* ------------------------------------------------------------ cell search *)
+Lemma first_gt_aux_spec v vec fuel : forall i,
+  let r := first_gt_aux Rleb fuel i v vec in
+  (i <= r <= i + Z.of_nat fuel)%Z /\ (forall j, (i <= j < r)%Z -> vec j <= v) /\
+  ((r < i + Z.of_nat fuel)%Z -> v < vec r).
+Proof.
+  induction fuel as [|f IH]; intros i; cbn [first_gt_aux].
+  - cbv zeta. split; [lia|]. split; intros; lia.
+  - destruct (fltb Rleb v (vec i)) eqn:E.
+    + cbv zeta. split; [lia|]. split; [intros; lia|]. intros _. now apply fltb_true.
+    + specialize (IH (i + 1)%Z). cbv zeta in IH |- *. destruct IH as [H1 [H2 H3]].
+      split; [lia|]. split.
+      * intros j Hj. destruct (Z.eq_dec j i) as [->|Hne]; [now apply fltb_false | apply H2; lia].
+      * intros H. apply H3. lia.
+Qed.
+
+Lemma nodes_mono A : axis_ok A -> forall i j, (0 <= i <= j)%Z -> (j <= an A)%Z -> anode A i <= anode A j.
+Proof.
+  intros [_ Hok] i j [Hi Hij]. revert j Hij.
+  apply (zrange_ind (fun j => (j <= an A)%Z -> anode A i <= anode A j) i).
+  - intros; lra.
+  - intros j Hij IH Hj. destruct (Hok j) as [Hh Hn]; [lia|]. rewrite Hn.
+    specialize (IH ltac:(lia)). lra.
+Qed.
+
+(* cell_ind on the node vector of a sorted axis, for a coordinate inside *)
+Lemma cell_ind_spec A v : axis_ok A -> anode A 0%Z <= v <= anode A (an A) ->
+  let c := cell_ind Rleb v (anode A) (an A + 1) in
+  (0 <= c <= an A)%Z /\ anode A c <= v /\ ((c < an A)%Z -> v < anode A (c + 1)%Z).
+Proof.
+  intros Hax [Hlo Hhi]. cbv zeta. unfold cell_ind, first_gt.
+  pose proof (first_gt_aux_spec v (anode A) (Z.to_nat (an A + 1)) 0%Z) as S.
+  cbv zeta in S. destruct Hax as [Hn Hok].
+  set (r := first_gt_aux Rleb (Z.to_nat (an A + 1)) 0%Z v (anode A)) in *.
+  rewrite Z2Nat.id in S by lia. destruct S as [S1 [S2 S3]].
+  assert (Hr : (1 <= r)%Z).
+  { destruct (Z.eq_dec r 0) as [E|]; [|lia]. rewrite E in S3. specialize (S3 ltac:(lia)). lra. }
+  rewrite Z.max_r by lia. split; [lia|]. split.
+  - apply S2. lia.
+  - intros Hc. replace (r - 1 + 1)%Z with r by lia. apply S3. lia.
+Qed.
+
+(* the segment may lie in the upper boundary plane only in the repaired variant *)
+Definition upper_ok (clamp : bool) (A : Axis R) (q0 q1 : R) : Prop :=
+  clamp = true \/ q0 <> q1 \/ q0 < anode A (an A).
+Definition inside1 (A : Axis R) (q : R) : Prop := anode A 0%Z <= q <= anode A (an A).
+
+Lemma afrac_node A q0 q1 j : q1 - q0 <> 0 ->
+  anode A j = q0 + afrac Rleb A q0 q1 j * (q1 - q0).
+Proof.
+  intros Hd. unfold afrac, idd. rewrite (proj2 (nzd_true q0 q1) Hd). runf. field. exact Hd.
+Qed.
+
+Lemma axis_range clamp A q0 q1 : axis_ok A -> inside1 A q0 -> inside1 A q1 -> upper_ok clamp A q0 q1 ->
+  let m := rlo Rleb clamp A q0 q1 in
+  let n := rhi Rleb A q0 q1 in
+  covers (nzd Rleb q0 q1) (afrac Rleb A q0 q1) m n /\
+  forall i, (m <= i < n)%Z -> dir_ok A q0 q1 i /\ (0 <= i < an A)%Z.
+Proof.
+  intros Hax I0 I1 Hup. cbv zeta. unfold rlo, rhi. rewrite fmin_R, fmax_R.
+  assert (Imin : inside1 A (Rmin q0 q1)) by (unfold inside1, Rmin in *; destruct (Rle_dec q0 q1); lra).
+  assert (Imax : inside1 A (Rmax q0 q1)) by (unfold inside1, Rmax in *; destruct (Rle_dec q0 q1); lra).
+  pose proof (cell_ind_spec A _ Hax Imin) as Smin. pose proof (cell_ind_spec A _ Hax Imax) as Smax.
+  cbv zeta in Smin, Smax.
+  set (cmin := cell_ind Rleb (Rmin q0 q1) (anode A) (an A + 1)) in *.
+  set (cmax := cell_ind Rleb (Rmax q0 q1) (anode A) (an A + 1)) in *.
+  destruct Smin as [Rmn [Lmn Umn]]. destruct Smax as [Rmx [Lmx Umx]].
+  pose proof (nodes_mono A Hax) as Mono.
+  assert (Hn : (0 < an A)%Z) by apply Hax.
+  assert (Hdir : forall i, (0 <= i < an A)%Z -> 0 < ah A i /\ anode A (i + 1)%Z = anode A i + ah A i)
+    by apply Hax.
+  destruct (nzd Rleb q0 q1) eqn:Enz.
+  - (* a direction with extent *)
+    pose proof (proj1 (nzd_true _ _) Enz) as Hd.
+    assert (Hlt : Rmin q0 q1 < Rmax q0 q1) by (unfold Rmin, Rmax; destruct (Rle_dec q0 q1); lra).
+    assert (Hcmin : (cmin < an A)%Z).
+    { destruct (Z_lt_dec cmin (an A)); [assumption|]. replace cmin with (an A) in Lmn by lia.
+      unfold inside1 in Imax. lra. }
+    assert (Hle : (cmin <= cmax)%Z).
+    { destruct (Z_le_dec cmin cmax); [assumption|exfalso].
+      specialize (Umx ltac:(lia)). specialize (Mono (cmax + 1)%Z cmin ltac:(lia) ltac:(lia)). lra. }
+    assert (Em : (if clamp then Z.min (an A - 1) cmin else cmin) = cmin) by (destruct clamp; lia).
+    rewrite Em. set (n := Z.min (cmax + 1) (an A)).
+    assert (Hn' : Rmax q0 q1 <= anode A n).
+    { unfold n. destruct (Z_lt_dec cmax (an A)).
+      - rewrite Z.min_l by lia. specialize (Umx ltac:(lia)). lra.
+      - rewrite Z.min_r by lia. unfold inside1 in Imax. replace cmax with (an A) in Lmx by lia. lra. }
+    assert (Hmn : (cmin <= n)%Z) by (unfold n; lia).
+    assert (Hnn : (n <= an A)%Z) by (unfold n; lia).
+    split.
+    + unfold covers. split; [assumption|].
+      pose proof (afrac_node A q0 q1) as E.
+      destruct (Rlt_dec q0 q1) as [Hpos|Hneg].
+      * left. rewrite Rmin_left in Lmn by lra. rewrite Rmax_right in Hn' by lra.
+        split; [|split].
+        -- intros i Hi. pose proof (E i Hd). pose proof (E (i + 1)%Z Hd).
+           specialize (Mono i (i + 1)%Z ltac:(lia) ltac:(lia)). nra.
+        -- pose proof (E cmin Hd). nra.
+        -- pose proof (E n Hd). nra.
+      * right. assert (q1 < q0) by lra. rewrite Rmin_right in Lmn by lra.
+        rewrite Rmax_left in Hn' by lra. split; [|split].
+        -- intros i Hi. pose proof (E i Hd). pose proof (E (i + 1)%Z Hd).
+           specialize (Mono i (i + 1)%Z ltac:(lia) ltac:(lia)). nra.
+        -- pose proof (E cmin Hd). nra.
+        -- pose proof (E n Hd). nra.
+    + intros i Hi. split; [|lia]. destruct (Hdir i ltac:(lia)) as [Hh Hnode].
+      split; [assumption|]. split; [assumption|]. intros Z0. contradiction.
+  - (* a direction without extent: exactly one cell, which contains the coordinate *)
+    pose proof (proj1 (nzd_false _ _) Enz) as Hd. assert (Eq : q1 = q0) by lra. subst q1.
+    assert (Ecm : cmax = cmin) by (unfold cmax, cmin; rewrite Rmin_left, Rmax_left by lra; reflexivity).
+    rewrite Rmin_left, Rmax_left in * by lra.
+    destruct (Z_lt_dec cmin (an A)) as [Hc|Hc].
+    + assert (Em : (if clamp then Z.min (an A - 1) cmin else cmin) = cmin) by (destruct clamp; lia).
+      rewrite Em. rewrite Z.min_l by lia. split; [reflexivity|].
+      intros i Hi. assert (i = cmin) by lia. subst i. split; [|lia].
+      destruct (Hdir cmin ltac:(lia)) as [Hh Hnode]. split; [assumption|]. split; [assumption|].
+      intros _. specialize (Umn Hc). lra.
+    + assert (Ec : cmin = an A) by lia. unfold inside1 in I0.
+      destruct Hup as [Hcl | [Hne | Hlt]]; [| contradiction | rewrite Ec in Lmn; lra].
+      subst clamp. rewrite Ec. rewrite Z.min_l by lia. rewrite Z.min_r by lia.
+      split; [unfold covers; lia|].
+      intros i Hi. assert (i = (an A - 1)%Z) by lia. subst i. split; [|lia].
+      destruct (Hdir (an A - 1)%Z ltac:(lia)) as [Hh Hnode]. split; [assumption|]. split; [assumption|].
+      intros _. replace (an A - 1 + 1)%Z with (an A) in * by lia.
+      rewrite Ec in Lmn. specialize (Mono (an A - 1)%Z (an A) ltac:(lia) ltac:(lia)). lra.
+Qed.
+
+(* ------------------------------------------------------------- one segment *)
+Definition grid_ok (G : Grid R) : Prop := axis_ok (gx G) /\ axis_ok (gy G) /\ axis_ok (gz G).
+Definition inside (G : Grid R) (p : P3 R) : Prop :=
+  inside1 (gx G) (px p) /\ inside1 (gy G) (py p) /\ inside1 (gz G) (pz p).
+Definition seg_upper_ok (clamp : bool) (G : Grid R) (p0 p1 : P3 R) : Prop :=
+  upper_ok clamp (gx G) (px p0) (px p1) /\ upper_ok clamp (gy G) (py p0) (py p1) /\
+  upper_ok clamp (gz G) (pz p0) (pz p1).
+Definition pcomp (c : Z) (p : P3 R) : R :=
+  if Z.eqb c 0 then px p else if Z.eqb c 1 then py p else pz p.
+
+Lemma csum_nil c : csum c (@nil (Contrib R)) = 0.
+Proof. reflexivity. Qed.
+Lemma csum_cons c (e : Contrib R) l :
+  csum c (e :: l) = if Z.eqb (cc e) c then cv e + csum c l else csum c l.
+Proof. reflexivity. Qed.
+Lemma csum_app c (l1 l2 : list (Contrib R)) : csum c (l1 ++ l2) = csum c l1 + csum c l2.
+Proof.
+  induction l1 as [|e l IH]; [rewrite csum_nil; cbn [app]; lra|].
+  cbn [app]. rewrite !csum_cons, IH. destruct (Z.eqb (cc e) c); lra.
+Qed.
+Lemma csum_flat_map {A} c (g : A -> list (Contrib R)) l :
+  csum c (flat_map g l) = lsum (fun x => csum c (g x)) l.
+Proof. induction l as [|x l IH]; cbn [flat_map lsum]; [reflexivity|]. now rewrite csum_app, IH. Qed.
+
+Lemma seg_cells_eq clamp G p0 p1 :
+  seg_cells Rleb clamp G p0 p1 =
+  cells3 (rlo Rleb clamp (gx G) (px p0) (px p1)) (rhi Rleb (gx G) (px p0) (px p1))
+         (rlo Rleb clamp (gy G) (py p0) (py p1)) (rhi Rleb (gy G) (py p0) (py p1))
+         (rlo Rleb clamp (gz G) (pz p0) (pz p1)) (rhi Rleb (gz G) (pz p0) (pz p1)).
+Proof. reflexivity. Qed.
+
+Lemma in_cells3 c mx nx my ny mz nz : In c (cells3 mx nx my ny mz nz) ->
+  (mx <= fst (fst c) < nx)%Z /\ (my <= snd (fst c) < ny)%Z /\ (mz <= snd c < nz)%Z.
+Proof.
+  unfold cells3. rewrite in_flat_map. intros [iz [Hz H]]. apply in_flat_map in H.
+  destruct H as [iy [Hy H]]. apply in_map_iff in H. destruct H as [ix [<- Hx]].
+  apply in_zrange in Hx, Hy, Hz. cbn. lia.
+Qed.
+
+Section Segment.
+  Variables (clamp : bool) (G : Grid R) (p0 p1 : P3 R).
+  Hypothesis HG : grid_ok G.
+  Hypothesis H0 : inside G p0.
+  Hypothesis H1 : inside G p1.
+  Hypothesis HU : seg_upper_ok clamp G p0 p1.
+
+  Lemma seg_cell_ok c : In c (seg_cells Rleb clamp G p0 p1) ->
+    cell_ok G p0 p1 c /\
+    (0 <= fst (fst c) < an (gx G))%Z /\ (0 <= snd (fst c) < an (gy G))%Z /\ (0 <= snd c < an (gz G))%Z.
+  Proof.
+    rewrite seg_cells_eq. intros Hin. apply in_cells3 in Hin. destruct Hin as [Hx [Hy Hz]].
+    destruct HG as [Gx [Gy Gz]], H0 as [Ix [Iy Iz]], H1 as [Jx [Jy Jz]], HU as [Ux [Uy Uz]].
+    destruct (axis_range clamp _ _ _ Gx Ix Jx Ux) as [_ Ax].
+    destruct (axis_range clamp _ _ _ Gy Iy Jy Uy) as [_ Ay].
+    destruct (axis_range clamp _ _ _ Gz Iz Jz Uz) as [_ Az].
+    destruct (Ax _ Hx), (Ay _ Hy), (Az _ Hz). unfold cell_ok. tauto.
+  Qed.
+
+  (* clip_partition lifted to the model + cell_spread_unity: the un-normalised
+     component sums are exactly 1 *)
+  Lemma seg_raw_sum c : (c = 0 \/ c = 1 \/ c = 2)%Z -> csum c (seg_raw Rleb clamp G p0 p1) = 1.
+  Proof.
+    intros Hc. unfold seg_raw. rewrite csum_flat_map.
+    rewrite (lsum_ext _ (fun cell => jlen (cellJ G p0 p1 cell))).
+    - rewrite seg_cells_eq. unfold cellJ.
+      destruct HG as [Gx [Gy Gz]], H0 as [Ix [Iy Iz]], H1 as [Jx [Jy Jz]], HU as [Ux [Uy Uz]].
+      apply partition3.
+      + apply (axis_range clamp _ _ _ Gx Ix Jx Ux).
+      + apply (axis_range clamp _ _ _ Gy Iy Jy Uy).
+      + apply (axis_range clamp _ _ _ Gz Iz Jz Uz).
+    - intros cell Hin. apply cell_csum; [assumption | apply seg_cell_ok; assumption].
+  Qed.
+
+  Lemma norm_warn_one : norm_warn Rleb 1 = false.
+  Proof.
+    unfold norm_warn. apply fltb_false. rewrite !fabs_R. unfold tol6. runf.
+    rewrite Rabs_R1. replace (1 - 1) with 0 by ring. rewrite Rabs_R0. lra.
+  Qed.
+
+  Lemma csum_map_scale c (k : Z -> R) (l : list (Contrib R)) :
+    csum c (map (fun e => mkC (cc e) (ci e) (cj e) (ck e) (cv e * k (cc e))) l) = csum c l * k c.
+  Proof.
+    induction l as [|e l IH]; [cbn [map]; rewrite csum_nil; lra|].
+    cbn [map]. rewrite !csum_cons, IH. cbn [cc cv]. runf.
+    destruct (Z.eqb_spec (cc e) c) as [->|]; lra.
+  Qed.
+
+  Lemma seg_vec_eq :
+    seg_vec Rleb clamp G p0 p1 =
+    map (fun e => mkC (cc e) (ci e) (cj e) (ck e) (cv e * comp_d p0 p1 (cc e)))
+        (seg_raw Rleb clamp G p0 p1).
+  Proof.
+    unfold seg_vec. cbv zeta. rewrite !seg_raw_sum by auto.
+    apply map_ext. intros e. f_equal. unfold norm_div, sel3.
+    destruct (Z.eqb (cc e) 0), (Z.eqb (cc e) 1); rewrite norm_warn_one; reflexivity.
+  Qed.
+
+  Lemma comp_d_eq c : comp_d p0 p1 c = pcomp c p1 - pcomp c p0.
+  Proof. unfold comp_d, pcomp. destruct (Z.eqb c 0), (Z.eqb c 1); reflexivity. Qed.
+
+  (* dipole_moment for one segment *)
+  Lemma seg_vec_sum c : (c = 0 \/ c = 1 \/ c = 2)%Z ->
+    csum c (seg_vec Rleb clamp G p0 p1) = pcomp c p1 - pcomp c p0.
+  Proof.
+    intros Hc. rewrite seg_vec_eq, (csum_map_scale c (comp_d p0 p1)), seg_raw_sum by assumption.
+    rewrite comp_d_eq. lra.
+  Qed.
+
+  (* normalisation_guard_inactive *)
+  Lemma seg_stat_zero : seg_stat Rleb clamp G p0 p1 = (0, 0, 0)%Z.
+  Proof.
+    unfold seg_stat. cbv zeta. rewrite !seg_raw_sum by auto. unfold norm_stat.
+    now rewrite norm_warn_one.
+  Qed.
+
+  (* support_in_touched_cells *)
+  Definition edge_of_cell (e : Contrib R) (ix iy iz : Z) : Prop :=
+    (0 <= cc e <= 2)%Z /\
+    (ci e = ix \/ (ci e = ix + 1 /\ cc e <> 0))%Z /\
+    (cj e = iy \/ (cj e = iy + 1 /\ cc e <> 1))%Z /\
+    (ck e = iz \/ (ck e = iz + 1 /\ cc e <> 2))%Z.
+  Definition in_cell (x y z : R) (ix iy iz : Z) : Prop :=
+    anode (gx G) ix <= x <= anode (gx G) (ix + 1)%Z /\
+    anode (gy G) iy <= y <= anode (gy G) (iy + 1)%Z /\
+    anode (gz G) iz <= z <= anode (gz G) (iz + 1)%Z.
+
+  Lemma seg_support e : In e (seg_raw Rleb clamp G p0 p1) ->
+    exists ix iy iz t,
+      (0 <= ix < an (gx G))%Z /\ (0 <= iy < an (gy G))%Z /\ (0 <= iz < an (gz G))%Z /\
+      edge_of_cell e ix iy iz /\ 0 <= t <= 1 /\
+      in_cell (px p0 + t * (px p1 - px p0)) (py p0 + t * (py p1 - py p0))
+              (pz p0 + t * (pz p1 - pz p0)) ix iy iz.
+  Proof.
+    unfold seg_raw. rewrite in_flat_map. intros [[[ix iy] iz] [Hc He]].
+    destruct (seg_cell_ok _ Hc) as [Hok [Bx [By Bz]]]. cbn [fst snd] in Bx, By, Bz.
+    pose proof (cell_guard_pos G p0 p1 ix iy iz Hok) as HGp. cbv zeta in HGp.
+    unfold cell_contribs in He. cbn [fst snd] in He.
+    set (al := cell_al Rleb G p0 p1 ix iy iz) in *.
+    set (ar := cell_ar Rleb G p0 p1 ix iy iz) in *.
+    destruct (cell_guard Rleb _ _ _ al ar) eqn:EG; [|contradiction].
+    pose proof (proj1 HGp eq_refl) as Hlt.
+    apply cell_guard_iff in EG. destruct EG as [Rx [Ry [Rz _]]].
+    destruct Hok as [[hx [nx _]] [[hy [ny _]] [hz [nz _]]]]. cbn [fst snd] in *.
+    unfold rfrac in Rx, Ry, Rz. runf.
+    apply (r_bounds _ _ _ hx) in Rx. apply (r_bounds _ _ _ hy) in Ry. apply (r_bounds _ _ _ hz) in Rz.
+    rewrite xc1_eq in Rx, Ry, Rz. rewrite <- nx in Rx. rewrite <- ny in Ry. rewrite <- nz in Rz.
+    assert (B : 0 <= al /\ ar <= 1).
+    { unfold al, ar. rewrite cell_al_eq, cell_ar_eq. unfold cellJ. cbn [fst snd].
+      repeat apply clipc_bounds; cbn; lra. }
+    exists ix, iy, iz, ((al + ar) / 2).
+    split; [assumption|]. split; [assumption|]. split; [assumption|]. split.
+    - unfold edge_of_cell.
+      repeat (destruct He as [<- | He]; [cbn [cc ci cj ck]; repeat split; (lia || (left; lia) || (right; lia))|]).
+      contradiction.
+    - split; [lra|]. unfold in_cell. tauto.
+  Qed.
+End Segment.
+
+(* ------------------------------------------------------------------- wires *)
+Lemma outside_false G p : outside Rleb G p = false <-> inside G p.
+Proof.
+  unfold outside, out1, inside, inside1. rewrite !orb_false_iff, !fltb_false. tauto.
+Qed.
+
+Lemma segs_cons2 (a b : P3 R) t : segs (a :: b :: t) = (a, b) :: segs (b :: t).
+Proof. reflexivity. Qed.
+
+Lemma segs_in (pts : list (P3 R)) s : In s (segs pts) -> In (fst s) pts /\ In (snd s) pts.
+Proof.
+  induction pts as [|a t IH]; [contradiction|]. destruct t as [|b t]; [contradiction|].
+  rewrite segs_cons2. intros [<- | H]; cbn [fst snd].
+  - split; [left; reflexivity | right; left; reflexivity].
+  - destruct (IH H). split; right; assumption.
+Qed.
+
+Lemma segs_telescope c (pts : list (P3 R)) d :
+  lsum (fun s => pcomp c (snd s) - pcomp c (fst s)) (segs pts) = pcomp c (last pts d) - pcomp c (hd d pts).
+Proof.
+  induction pts as [|a t IH]; [cbn; lra|]. destruct t as [|b t]; [cbn; lra|].
+  rewrite segs_cons2. cbn [lsum fst snd]. rewrite IH.
+  change (last (a :: b :: t) d) with (last (b :: t) d). cbn [hd]. lra.
+Qed.
+
+Lemma existsb_false {A} (f : A -> bool) l : existsb f l = false -> forall x, In x l -> f x = false.
+Proof.
+  intros H x Hx. destruct (f x) eqn:E; [|reflexivity].
+  assert (existsb f l = true) by (apply existsb_exists; exists x; auto). congruence.
+Qed.
+
+Lemma wire_sum clamp G pts l st c d :
+  grid_ok G -> (c = 0 \/ c = 1 \/ c = 2)%Z ->
+  (forall s, In s (segs pts) -> seg_upper_ok clamp G (fst s) (snd s)) ->
+  dipole_vector Rleb clamp G pts = SOk l st ->
+  csum c l = pcomp c (last pts d) - pcomp c (hd d pts) /\ Forall (fun t => t = (0, 0, 0)%Z) st.
+Proof.
+  intros HG Hc HU. unfold dipole_vector.
+  destruct (existsb (outside Rleb G) pts) eqn:Eo; [discriminate|].
+  destruct (existsb (nolen Rleb) (segs pts)) eqn:En; [discriminate|].
+  intros E. injection E as <- <-.
+  pose proof (existsb_false _ _ Eo) as Hin.
+  assert (Hseg : forall s, In s (segs pts) -> inside G (fst s) /\ inside G (snd s)).
+  { intros s Hs. destruct (segs_in _ _ Hs). split; apply outside_false, Hin; assumption. }
+  split.
+  - rewrite csum_flat_map. rewrite <- (segs_telescope c pts d). apply lsum_ext.
+    intros s Hs. destruct (Hseg s Hs). apply seg_vec_sum; auto.
+  - apply Forall_forall. intros t Ht. apply in_map_iff in Ht. destruct Ht as [s [<- Hs]].
+    destruct (Hseg s Hs). apply seg_stat_zero; auto.
+Qed.
+
+(* support for wires *)
+Lemma wire_support clamp G pts l st e :
+  grid_ok G -> (forall s, In s (segs pts) -> seg_upper_ok clamp G (fst s) (snd s)) ->
+  dipole_vector Rleb clamp G pts = SOk l st -> In e l ->
+  exists s ix iy iz t, In s (segs pts) /\
+    (0 <= ix < an (gx G))%Z /\ (0 <= iy < an (gy G))%Z /\ (0 <= iz < an (gz G))%Z /\
+    edge_of_cell e ix iy iz /\ 0 <= t <= 1 /\
+    in_cell G (px (fst s) + t * (px (snd s) - px (fst s))) (py (fst s) + t * (py (snd s) - py (fst s)))
+              (pz (fst s) + t * (pz (snd s) - pz (fst s))) ix iy iz.
+Proof.
+  intros HG HU. unfold dipole_vector.
+  destruct (existsb (outside Rleb G) pts) eqn:Eo; [discriminate|].
+  destruct (existsb (nolen Rleb) (segs pts)) eqn:En; [discriminate|].
+  intros E. injection E as <- <-. intros He.
+  pose proof (existsb_false _ _ Eo) as Hin.
+  apply in_flat_map in He. destruct He as [s [Hs He]].
+  destruct (segs_in _ _ Hs) as [I0 I1]. apply Hin, outside_false in I0. apply Hin, outside_false in I1.
+  rewrite (seg_vec_eq clamp G _ _ HG I0 I1 (HU s Hs)) in He.
+  apply in_map_iff in He. destruct He as [e0 [<- He0]].
+  destruct (seg_support clamp G _ _ HG I0 I1 (HU s Hs) e0 He0) as [ix [iy [iz [t H]]]].
+  exists s, ix, iy, iz, t. split; [assumption|]. exact H.
 Qed.
